@@ -463,6 +463,17 @@ package core
 //@              || (old(core.catalog.UserTypes.data[s].Schema.Notation) == "jsight" && scalarTok(old(core.catalog.UserTypes.data[s].Schema.ContentJSight.TokenType))))
 //@   ensures [C13] isnil(ret) ==> has(usedUserTypes.data, s)
 
+// ---------------------------------------------------------------- allOf: an undefined base and a base that is not an object are rejected (C11 "references an undefined type"; C12's rejection rules)
+// Only the two refusals that precede the recursion are claimed; the order and marking of the inherited properties (C12 proper)
+// is produced by in-place mutation of shared schema nodes and is not under contract.
+//@ func (*JApiCore).inheritPropertiesFromUserType
+//@   tag C11 C01
+//@   requires core != nil && core.catalog != nil && core.catalog.UserTypes != nil && core.catalog.UserTypes.mx == 0 && sc != nil
+//@   requires has(core.catalog.UserTypes.data, userTypeName) ==> core.catalog.UserTypes.data[userTypeName] != nil && core.catalog.UserTypes.data[userTypeName].Schema.ContentJSight != nil
+//@   ensures [C11] !old(has(core.catalog.UserTypes.data, userTypeName)) ==> !isnil(ret)
+//@   ensures [C11] old(has(core.catalog.UserTypes.data, userTypeName)) && old(core.catalog.UserTypes.data[userTypeName].Schema.ContentJSight.TokenType) != "object" ==> !isnil(ret)
+//@   unclaimed kind!=ensures only the two refusals are claimed: the inheritance loop mutates schema nodes shared between user types (outside the modelled subset, see C12)
+
 // ---------------------------------------------------------------- used user types exist (C09 "every used user type named anywhere exists")
 // findUserTypes accepts a set of names only if every one of them is a declared user type; it changes neither table.
 //@ func (*JApiCore).findUserTypes
